@@ -1,5 +1,6 @@
 """C08 Numeric text conversions (DESIGN.md 5.3, 6 C08; spec/Numeric.tla, MC_Numeric.tla, T_Numeric.tla)."""
 import math
+import os
 import random
 import re
 
@@ -225,6 +226,9 @@ def run_and_judge(ctx, cases, name):
 
 
 def run(ctx):
+    if os.environ.get("VERIF_SELFTEST") == "1" or not ctx.quick:
+        selftest(ctx)           # binding self-test: a corrupted recorded field must be rejected
+        ctx.extra["selftest"] = "corrupted field rejected"
     q = ctx.quick
     runs = [("MC_Numeric.tla", "MC_Numeric_int.cfg", None, ["ItoaCanonical", "AtoiInverse", "input export"]),
             ("MC_Numeric.tla", "MC_Numeric_dyadic.cfg" if q else "MC_Numeric_dyadic_thorough.cfg", None, ["DtoaCorrect", "MeaningSane", "input export"]),
